@@ -1,5 +1,7 @@
-(* C02 proofs, part 3: the recorded defects are facts about the faithful model: concrete witnesses, by computation.
-   Each witness is the `repro` of the corresponding entry of findings.d/C02.json (replayed against /repo by the harness). *)
+(* C02 proofs, part 3: concrete witnesses, by computation.
+   (a) the findings that REMAIN after the repairs of fixes/C02/*.diff are facts about the faithful model;
+   (b) the former counterexamples (the `repro` of each repaired finding, fixes/C02/fixed.json) now satisfy the property
+       in the model -- a regression guard: if a repair is lost, the correspondence run reports the model mismatch. *)
 From Coq Require Import ZArith List Bool String.
 Import ListNotations.
 From TD Require Import Spec.PySlice Spec.C02_TorchShape Model.C02_ShapeOps Proofs.C02_FrameP.
@@ -19,124 +21,76 @@ Fixpoint cohb (t : tree) : bool :=
          match l with [] => true | (_, c) :: r => prefixb bs (top_shape c) && cohb c && go r end) ents
   end.
 
-(* D4: split(list) is not validated: torch rejects [5] for a dim of size 3, the model (as the code) returns a
-   tensordict of batch size [5] around an entry of shape [3;2] *)
-Lemma D4_split_list_accepts_illegal :
-  t_split_list [3] [5] 0 = Reject /\
-  td_split (td1 [3] [2]) (inr [5]) 0 = Done [Node [5] None [("a", Leaf [3; 2])]] /\
-  cohb (Node [5] None [("a", Leaf [3; 2])]) = false.
-Proof. vm_compute. auto. Qed.
-
+(* ------------------------------------------------------------------ (a) remaining findings *)
+(* D4 (reduced): a list of sizes that sums beyond the dim is truncated, not rejected (torch raises); the result is
+   now coherent.  Kept because test_split_lazy splits a dim of size 2 with [3, 3]. *)
 Lemma D4_split_list_truncates :
+  t_split_list [3] [5] 0 = Reject /\
+  td_split (td1 [3] [2]) (inr [5]) 0 = Done [td1 [3] [2]] /\
   t_split_list [3] [2; 2] 0 = Reject /\
   td_split (td1 [3] []) (inr [2; 2]) 0 = Done [td1 [2] []; td1 [1] []].
 Proof. vm_compute. auto. Qed.
 
-Lemma D4_split_negative_size :
-  t_split_list [3] [4; -1] 0 = Reject /\
-  exists t1 t2, td_split (td1 [3] []) (inr [4; -1]) 0 = Done [t1; t2] /\ top_shape t2 = [-1].
-Proof. split; [reflexivity|]. eexists. eexists. split; vm_compute; reflexivity. Qed.
-
-(* D4: split(0) on a non-empty dim, and any negative split size, never return *)
-Lemma D4_split_zero_diverges :
-  t_split_int [2] 0 0 = Reject /\ td_split (td1 [2] []) (inl 0) 0 = Diverges /\
-  t_split_int [2] (-1) 0 = Reject /\ td_split (td1 [2] []) (inl (-1)) 0 = Diverges.
-Proof. vm_compute. auto. Qed.
-
-(* D5: squeeze() on a named tensordict whose batch dims are all 1 raises (torch: shape []) *)
-Lemma D5_squeeze_all_named_raises :
-  t_squeeze_all [1; 1] = Ok [] /\
-  apply (named [1; 1] [Some "x"; Some "y"] [2]) (OSqueeze None) = Raised EValue.
-Proof. vm_compute. auto. Qed.
-
-(* D5-view: same call, unnamed, an entry without feature dims: tensor.view() without arguments *)
-Lemma D5_squeeze_all_featureless_raises :
-  t_squeeze_all [1; 1] = Ok [] /\ apply (td1 [1; 1] []) (OSqueeze None) = Raised EType.
-Proof. vm_compute. auto. Qed.
-
-(* C02-a: squeeze() erases the names of nested nodes *)
-Lemma C02a_squeeze_all_nested_names :
-  apply (Node [1; 2] (Some [Some "x"; Some "y"]) [("n", Node [1; 2] (Some [Some "x"; Some "y"]) [("x", Leaf [1; 2])])])
-        (OSqueeze None)
-  = Done (Node [2] (Some [Some "y"]) [("n", Node [2] None [("x", Leaf [2])])]).
-Proof. vm_compute. reflexivity. Qed.
-
-(* D22 / S9: stack along a dim past the batch rank; C02-b: below -(rank+1); the result is incoherent *)
-Lemma D22_stack_dim_past_rank :
-  t_stack [[3]; [3]] 2 = Reject /\
-  td_stack [td1 [3] [4]; td1 [3] [4]] 2 = Done (Node [3; 2] None [("a", Leaf [3; 4; 2])]) /\
-  cohb (Node [3; 2] None [("a", Leaf [3; 4; 2])]) = false.
-Proof. vm_compute. auto. Qed.
-
-Lemma C02b_stack_dim_below_range :
-  t_stack [[3; 4]; [3; 4]] (-4) = Reject /\
-  td_stack [td1 [3; 4] []; td1 [3; 4] []] (-4) = Done (Node [3; 2; 4] None [("a", Leaf [3; 4; 2])]).
-Proof. vm_compute. auto. Qed.
-
-Lemma C02c_cat_dim_below_range :
-  t_cat [[3; 4]; [3; 4]] (-3) = Reject /\
-  td_cat [td1 [3; 4] []; td1 [3; 4] []] (-3) = Done (Node [3; 8] None [("a", Leaf [3; 8])]).
-Proof. vm_compute. auto. Qed.
-
-(* S5: flatten past the batch dims; C02-d: repeat_interleave along a feature dim *)
-Lemma S5_flatten_past_batch_dims :
-  t_flatten [2] 0 1 = Reject /\
-  apply (td1 [2] [3; 4]) (OFlatten 0 1) = Done (Node [2] None [("a", Leaf [6; 4])]) /\
-  cohb (Node [2] None [("a", Leaf [6; 4])]) = false.
-Proof. vm_compute. auto. Qed.
-
-Lemma C02d_repeat_interleave_feature_dim :
-  t_repeat_interleave [2] 2 (Some 1) = Reject /\
-  td_repeat_interleave (td1 [2] [3]) 2 (Some 1) = Done (Node [2] None [("a", Leaf [2; 6])]).
-Proof. vm_compute. auto. Qed.
-
-(* C02-e: chunk on a size-0 dim gives one piece, torch gives `chunks` pieces *)
-Lemma C02e_chunk_empty_dim :
-  t_chunk [0; 2] 3 0 = Ok [[0; 2]; [0; 2]; [0; 2]] /\
-  td_chunk (td1 [0; 2] []) 3 0 = Done [td1 [0; 2] []].
-Proof. vm_compute. auto. Qed.
-
-(* C02-f / C02-g: -1 is copied into the batch size *)
-Lemma C02f_expand_minus_one :
-  t_expand [1; 2] [-1; 2] = Ok [1; 2] /\
-  apply (td1 [1; 2] []) (OExpand [-1; 2]) = Done (Node [-1; 2] None [("a", Leaf [1; 2])]).
-Proof. vm_compute. auto. Qed.
-
-Lemma C02g_unflatten_minus_one :
-  t_unflatten [6] 0 [2; -1] = Ok [2; 3] /\
-  apply (td1 [6] []) (OUnflatten 0 [2; -1]) = Done (Node [2; -1] None [("a", Leaf [2; 3])]).
-Proof. vm_compute. auto. Qed.
-
-(* C02-h: numel() of an empty batch is 1 *)
-Lemma C02h_view_infer_empty_batch :
-  t_view [3; 0] [3; -1] = Ok [3; 0] /\ apply (td1 [3; 0] []) (OView [3; -1]) = Raised EAssert /\
-  apply (Node [2; 0] None []) (OReshape [-1]) = Done (Node [1] None []).
-Proof. vm_compute. auto. Qed.
-
-(* C02-i/j: gather with an index whose shape is not the batch shape off the gather dim *)
-Lemma C02i_gather_lower_rank_index :
-  t_gather [2; 2; 2] (-1) [2; 2] = Reject /\
-  gather_at (td1 [2; 2; 2] []) (-1) [2; 2] = Done (Node [2; 2] None [("a", Leaf [2; 2; 1])]).
-Proof. vm_compute. auto. Qed.
-
-Lemma C02j_gather_size_one_index :
-  t_gather [3; 4] 1 [1; 2] = Ok [1; 2] /\
-  gather_at (td1 [3; 4] []) 1 [1; 2] = Done (Node [1; 2] None [("a", Leaf [3; 2])]) /\
-  cohb (Node [1; 2] None [("a", Leaf [3; 2])]) = false.
-Proof. vm_compute. auto. Qed.
-
-(* C02-k: a prefix permutation (tensordict's extension of permute) on a named tensordict: 2 names for 3 dims *)
-Lemma C02k_prefix_permutation_names :
-  apply (named [2; 3; 4] [Some "x"; Some "y"; Some "z"] []) (OPermute [1; 0])
-  = Done (Node [3; 2; 4] (Some [Some "y"; Some "x"]) [("a", Leaf [3; 2; 4])]).
-Proof. vm_compute. reflexivity. Qed.
-
-(* C02-l: without entries nothing validates the arguments *)
+(* C02-l: without entries nothing validates the arguments (same root as C03's D3) *)
 Lemma C02l_leafless_accepts :
   t_view [3; 3] [3] = Reject /\ apply (Node [3; 3] None []) (OView [3]) = Done (Node [3] None []).
 Proof. vm_compute. auto. Qed.
 
-(* C02-m: repeat() on a rank-0 tensordict with a feature-less entry *)
-Lemma C02m_repeat_rank0 :
-  t_repeat [] [] = Ok [] /\ apply (td1 [] []) (ORepeat []) = Raised EType.
+(* ------------------------------------------------------------------ (b) repaired: the former counterexamples *)
+Lemma D4_repaired :
+  td_split (td1 [3] []) (inr [4; -1]) 0 = Raised ERuntime /\
+  td_split (td1 [2] []) (inl 0) 0 = Raised ERuntime /\ td_split (td1 [2] []) (inl (-1)) 0 = Raised ERuntime /\
+  cohb (td1 [3] [2]) = true.
+Proof. vm_compute. auto. Qed.
+
+Lemma D5_repaired :
+  t_squeeze_all [1; 1] = Ok [] /\
+  apply (named [1; 1] [Some "x"; Some "y"] [2]) (OSqueeze None) = Done (Node [] None [("a", Leaf [2])]) /\
+  apply (td1 [1; 1] []) (OSqueeze None) = Done (Node [] None [("a", Leaf [])]).
+Proof. vm_compute. auto. Qed.
+
+Lemma C02a_repaired :
+  apply (Node [1; 2] (Some [Some "x"; Some "y"]) [("n", Node [1; 2] (Some [Some "x"; Some "y"]) [("x", Leaf [1; 2])])])
+        (OSqueeze None)
+  = Done (Node [2] (Some [Some "y"]) [("n", Node [2] (Some [Some "y"]) [("x", Leaf [2])])]).
+Proof. vm_compute. reflexivity. Qed.
+
+Lemma D22_C02b_C02c_repaired :
+  t_stack [[3]; [3]] 2 = Reject /\ td_stack [td1 [3] [4]; td1 [3] [4]] 2 = Raised EIndex /\
+  t_stack [[3; 4]; [3; 4]] (-4) = Reject /\ td_stack [td1 [3; 4] []; td1 [3; 4] []] (-4) = Raised EIndex /\
+  t_cat [[3; 4]; [3; 4]] (-3) = Reject /\ td_cat [td1 [3; 4] []; td1 [3; 4] []] (-3) = Raised ERuntime.
+Proof. vm_compute. repeat split; reflexivity. Qed.
+
+Lemma S5_C02d_repaired :
+  t_flatten [2] 0 1 = Reject /\ apply (td1 [2] [3; 4]) (OFlatten 0 1) = Raised EIndex /\
+  t_repeat_interleave [2] 2 (Some 1) = Reject /\ td_repeat_interleave (td1 [2] [3]) 2 (Some 1) = Raised EValue.
+Proof. vm_compute. auto. Qed.
+
+Lemma C02e_repaired :
+  t_chunk [0; 2] 3 0 = Ok [[0; 2]; [0; 2]; [0; 2]] /\
+  td_chunk (td1 [0; 2] []) 3 0 = Done [td1 [0; 2] []; td1 [0; 2] []; td1 [0; 2] []].
+Proof. vm_compute. auto. Qed.
+
+Lemma C02f_C02g_repaired :
+  t_expand [1; 2] [-1; 2] = Ok [1; 2] /\ apply (td1 [1; 2] []) (OExpand [-1; 2]) = Done (td1 [1; 2] []) /\
+  t_unflatten [6] 0 [2; -1] = Ok [2; 3] /\ apply (td1 [6] []) (OUnflatten 0 [2; -1]) = Done (td1 [2; 3] []).
+Proof. vm_compute. auto. Qed.
+
+Lemma C02h_repaired :
+  t_view [3; 0] [3; -1] = Ok [3; 0] /\ apply (td1 [3; 0] []) (OView [3; -1]) = Done (td1 [3; 0] []) /\
+  apply (Node [2; 0] None []) (OReshape [-1]) = Done (Node [0] None []).
+Proof. vm_compute. auto. Qed.
+
+Lemma C02ij_repaired :
+  t_gather [2; 2; 2] (-1) [2; 2] = Reject /\ gather_at (td1 [2; 2; 2] []) (-1) [2; 2] = Raised ERuntime /\
+  t_gather [3; 4] 1 [1; 2] = Ok [1; 2] /\ gather_at (td1 [3; 4] []) 1 [1; 2] = Done (td1 [1; 2] []).
+Proof. vm_compute. auto. Qed.
+
+Lemma C02k_repaired :
+  apply (named [2; 3; 4] [Some "x"; Some "y"; Some "z"] []) (OPermute [1; 0])
+  = Done (Node [3; 2; 4] (Some [Some "y"; Some "x"; Some "z"]) [("a", Leaf [3; 2; 4])]).
+Proof. vm_compute. reflexivity. Qed.
+
+Lemma C02m_repaired :
+  t_repeat [] [] = Ok [] /\ apply (td1 [] []) (ORepeat []) = Done (td1 [] []).
 Proof. vm_compute. auto. Qed.
